@@ -154,6 +154,8 @@ var extBlocking = map[string]bool{
 	"(*github.com/glowlabs-org/threadgroup.ThreadGroup).Stop": true,
 	"(*net/http.Server).Serve":                                true, "(*net/http.Server).Shutdown": true,
 	"io.ReadAll": true, "io.Copy": true,
+	// the reply to an HTTP client: it blocks for as long as the peer does not read (the server sets no write timeout)
+	"(net/http.ResponseWriter).Write": true, "net/http.Error": true, "(*encoding/json.Encoder).Encode": true,
 }
 
 var extFileOps = map[string]bool{
